@@ -105,6 +105,22 @@ func runC12(c *Ctx) {
 		}
 		p.PreimageContentType = mon.Pick[any](r, nil, nil, "text/plain", uint64(50), uint8(1), int64(60), int(7), int64(-3), 2.5, []byte("x"), true)
 		p.Location = mon.Pick(r, "", "", "https://example.com/a", "loc")
+		if i%11 == 3 && rawMode > 2 {
+			// the caller's protected map already holds exactly the governed values (and no alg)
+			h.Protected = cose.ProtectedHeader{}
+			if r.Bool() {
+				h.Protected[int64(258)] = ha
+			} else {
+				h.Protected[int64(258)] = int64(ha)
+			}
+			if p.PreimageContentType != nil {
+				h.Protected[int64(259)] = p.PreimageContentType
+			}
+			if p.Location != "" {
+				h.Protected[int64(260)] = p.Location
+			}
+			placement += "preset-equal,"
+		}
 		snap := mon.DeepHash(h.Protected, h.Unprotected, h.RawProtected, h.RawUnprotected, p.HashValue)
 		in := map[string]any{"case": i, "placement": placement, "rawmode": rawMode, "protected": describeHeader(h.Protected), "unprotected": describeHeader(h.Unprotected), "raw_unprotected": hexs(h.RawUnprotected),
 			"hash_alg": int64(ha), "hash_len": hl, "content_type": fmt.Sprintf("%T:%v", p.PreimageContentType, p.PreimageContentType), "location": p.Location}
